@@ -1203,3 +1203,6 @@ v("c08-drop-attached-to-grand-source", "C08", VR, "        if len(remaining_colu
 v("c05-remainder-operand-bare", "C05", SM, "    e0 = dbmodel.expr_to_sql(expression.args[0], want_inline_parens=True)\n    e1 = dbmodel.expr_to_sql(expression.args[1], want_inline_parens=True)\n    return f\"({e0} - FLOOR(", "    e0 = dbmodel.expr_to_sql(expression.args[0], want_inline_parens=False)\n    e1 = dbmodel.expr_to_sql(expression.args[1], want_inline_parens=True)\n    return f\"({e0} - FLOOR(")
 v("c27-sort-skipped-when-monotonic", "C27", PB, "            if len(order_cols) > 0:\n                # order by partition and order columns only", "            if not subframe[order_cols].apply(tuple, axis=1).is_monotonic_increasing:\n                # order by partition and order columns only")
 v("c18-sort-skipped-when-monotonic", "C18", PB, "            if len(order_cols) > 0:\n                # order by partition and order columns only", "            if not subframe[order_cols].apply(tuple, axis=1).is_monotonic_increasing:\n                # order by partition and order columns only")
+
+v("d171-view-names-not-counted", "C15", SM, "            view_name = getattr(cursor, \"view_name\", None)\n            if isinstance(view_name, str):\n                user_names.append(view_name)\n", "")
+v("d172-xicor-scratch-unchecked", "C15", SOL, "    assert \"_da_xicor_tmp_order\" not in d_col_set\n", "")
